@@ -457,3 +457,15 @@ func Parallel(n, workers int, fn func(i int)) {
 func (r *Run) SubRand(stream string, i int) *rand.Rand {
 	return r.Rand(fmt.Sprintf("%s#%d", stream, i))
 }
+
+// TmpDir returns a fresh scratch directory under /verif/build/<ID>/tmp
+// (removed by the driver after the run; never under /tmp).
+func (r *Run) TmpDir(name string) string {
+	base := os.Getenv("VERIF_TMP")
+	if base == "" {
+		base = filepath.Join(os.TempDir(), "verif-"+r.Property)
+	}
+	d := filepath.Join(base, fmt.Sprintf("%s-%s-%d", r.Part, name, time.Now().UnixNano()))
+	_ = os.MkdirAll(d, 0o755)
+	return d
+}
